@@ -277,6 +277,19 @@ where
                     | AccountEvent::UpdateFolder(id, buf)
                     | AccountEvent::CompactFolder(id, buf)
                     | AccountEvent::ChangeFolderPassword(id, buf) => {
+                        // When the account log is rewound and patched
+                        // to resolve a conflict the events that created
+                        // folders on this device are replayed; importing
+                        // the initial state again would erase the events
+                        // (secrets) already stored in the folder.
+                        let replayed_create =
+                            matches!(&event, AccountEvent::CreateFolder(_, _))
+                                && self.0.folders().get(id).is_some();
+                        if replayed_create {
+                            events.push(event);
+                            continue;
+                        }
+
                         // If the folder was created and later deleted
                         // in the same sequence of events then the folder
                         // password won't exist after merging the identity
